@@ -59,6 +59,9 @@ def scenarios(draw):
             steps = st.one_of(steps, st.just(["next"]))
         call["steps"] = draw(st.lists(steps, max_size=30))
         call["kind"] = kind
+        if ci > 0:
+            # batches abandoned by the previous (failed) call that complete before this call starts
+            call["late_before"] = draw(st.lists(st.integers(0, 5), max_size=3))
         calls.append(call)
     spec["calls"] = calls
     if any_timeout:
